@@ -132,3 +132,24 @@ Print Assumptions C01_py310_walk_complete.
 Example C01_py310_dead_code_example :
   walk (walk_fuel dead_code) dead_code 2 [(0, [])] [] = WNotFound /\ exiting310 dead_code 6 = EWarn.
 Proof. vm_compute. split; reflexivity. Qed.
+
+(* ... and every POP_BLOCK that SOME execution of the block-stack machine reaches is reachable in
+   the walk's graph (P_BlockStackR.v: the machine's exception edge leads to the handler of an open
+   block, which is a SETUP_* -> handler edge of the walk).  Hence, for ANY code (no certificate
+   needed): the model of the 3.9/3.10 branch never gives the "POP_BLOCK ... doesn't appear
+   reachable" InspectionWarning for an exit call that an execution can actually be in. *)
+Require Import P_BlockStackR.
+Theorem C01_py310_no_unreachable_warning : forall c pop st fuel,
+  breach c (pop, st) -> bat c pop = BPopBlock ->
+  walk fuel c pop [(0, [])] [] <> WNotFound.
+Proof. exact walk_never_gives_up_on_reachable. Qed.
+Print Assumptions C01_py310_no_unreachable_warning.
+(* non-vacuity: the POP_BLOCK of the example with block is reached by the machine *)
+Example C01_py310_reachable_pop_example :
+  breach P_BlockStack.ex_code (2, [9]) /\ bat P_BlockStack.ex_code 2 = BPopBlock.
+Proof.
+  split; [|reflexivity].
+  eapply BR_step; [eapply BR_step; [apply BR_start|]|].
+  - apply BS_normal. simpl. left. reflexivity.
+  - apply BS_normal. simpl. left. reflexivity.
+Qed.
